@@ -94,8 +94,10 @@ fn excuse_for_commit(w: &World, m: usize, c: usize) -> Option<Excuse> {
             }
         }
         // depth beyond retention: not asserted by the property
-        if let Some(fs) = &rec.first_state {
-            let depth = fs.epoch.saturating_sub(base_epoch);
+        {
+            // the snapshot of the base epoch is pruned once the client has been more than
+            // `retention` epochs past it
+            let depth = rec.max_epoch_before.saturating_sub(base_epoch);
             if depth as usize > cl.cfg.retention {
                 return Some(Excuse {
                     key: "limit-fork-deeper-than-retention",
